@@ -622,6 +622,83 @@ func init() {
 		finish(x, n, nil, "")
 	})
 
+	// S-message-flood: the leader sits in RequestNewBlockProposal(h1) (returns on cancellation only) while more
+	// consensus messages arrive than the worker's queue holds. The overflow must be dropped, not waited for: the main
+	// loop is the only one that can cancel the worker's context. Afterwards one more message, a sync and the election
+	// timeout race: UpdateState returns, the call is released, the node ends at height 2 (C14, C15; C12's "still
+	// processes later messages, elections and UpdateState"). Two variants of the deterministic prefix: "-api" delivers
+	// capacity+5 messages through HandleConsensusMessage (8000 scheduling points per execution: thorough tier, small
+	// bound); the plain one puts capacity-3 messages into the worker's queue directly while the worker is parked (the
+	// state those deliveries lead to) and crosses the capacity boundary with 8 real deliveries.
+	for _, viaAPI := range []bool{false, true} {
+		viaAPI := viaAPI
+		name, qb, tb := "S-message-flood", 1, 2
+		if viaAPI {
+			name, qb, tb = "S-message-flood-api", 0, 2
+		}
+		registerBoth(name, []string{"C14", "C15"}, 1, qb, tb, func(x *X, cancel bool) {
+			n := newNode(x, 0)
+			n.BlockReq[1] = true
+			n.Boot()
+			s := x.S
+			flood := n.fac(2, nil).CreatePrepareMessage(1, 0, kit.HashOf(kit.NewBlock(1, "B1"))).ToConsensusRawMessage()
+			q := n.M.VerifWorker().MessagesChannel
+			want := cap(q) + 5
+			if !viaAPI {
+				for len(q) < cap(q)-3 {
+					q <- flood
+				}
+				want = 8
+			}
+			fed := 0
+			s.NoBranch = true
+			s.Thread("flood", func() {
+				for i := 0; i < want; i++ {
+					n.M.HandleConsensusMessage(n.Ctx, flood)
+					fed++
+				}
+			})
+			s.Run(400000)
+			s.NoBranch = false
+			if fed != want {
+				x.Bad("C14", "api-blocked", "HandleConsensusMessage blocked after %d of %d messages while the worker is busy and its queue is full: the main loop waits for the worker; blocked=%v", fed, want, s.Blocked())
+				finish(x, n, nil, "")
+				return
+			}
+			late := false
+			s.Thread("late-msg", func() {
+				n.M.HandleConsensusMessage(n.Ctx, flood)
+				late = true
+			})
+			synced := false
+			s.Thread("sync", func() {
+				n.M.UpdateState(n.Ctx, kit.NewBlock(1, "B1"), n.proofFor(1, "B1"))
+				synced = true
+			})
+			addCancel(n, cancel)
+			if !s.Run(400000) {
+				x.Bad("C16", "livelock", "step horizon reached")
+			}
+			if !cancel {
+				if !synced || !late {
+					x.Bad("C14", "updatestate-blocked-or-failed", "after a message flood: UpdateState returned=%v, HandleConsensusMessage returned=%v; blocked=%v", synced, late, s.Blocked())
+				}
+				for _, c := range n.SpiCalls {
+					if !c.Returned && c.Height == 1 {
+						x.Bad("C15", "spi-not-released", "%s(h%d) still blocked after a sync to a higher height", c.Kind, c.Height)
+					}
+				}
+				if h := uint64(n.M.State().Height()); h != 2 {
+					x.Bad("C14", "newest-sync-not-effective", "UpdateState(block 1) returned nil but the node ends at height %d", h)
+				}
+			}
+			finish(x, n, nil, "")
+		})
+		if !viaAPI { // the cancel step placed at every point of the drain as well
+			quickBound[name+"+cancel"], thoroughBound[name+"+cancel"] = 1, 2
+		}
+	}
+
 	// S-state: the State object alone. One writer (the worker's role: view change, then next height), one reader
 	// taking two (height, view) snapshots. Every snapshot must be a state that existed, and snapshots never go back.
 	register(&Scenario{Name: "S-state", Props: []string{"C13"}, MaxFires: 0, Horizon: 2000, Body: func(x *X) {
